@@ -299,6 +299,18 @@ def e_api(c):
     check(np.array_equal(out.data, o[:total]), "prbs!=reference-sequence", f"order {n} seed {seed} (effective {eff:#x}) len {total}")
     check(int(out.data[0]) == (eff & 1), "first-output!=seed-LSB", "")
     check(int(stt) == state_after(n, o, total), "prbs-returned-state!=reference", f"order {n} seed {seed}")
+    # the caller owns the returned sequence: scribbling on it must not change what an identical later call returns
+    first_bits = out.data.copy()
+    try:
+        out.data[...] = 1 - out.data
+    except ValueError:
+        raise Violation("prbs-result-not-writable", "") from None
+    with warnings.catch_warnings(record=True) as w3:
+        warnings.simplefilter("always")
+        again, st_again = lib(D.PRBS, n, len=total, seed=seed, return_seed=True)
+    check(again is not out and np.array_equal(again.data, first_bits) and int(st_again) == int(stt), "prbs-results-share-state", f"order {n} seed {seed} len {total}")
+    check(any(issubclass(x.category, UserWarning) for x in w3) == (kind == "zero"), "zero-seed-warning-depends-on-history", f"seed={seed}")
+    out.data[...] = first_bits
     # plain call (no return_seed) gives the same bits
     with warnings.catch_warnings():
         warnings.simplefilter("ignore")
